@@ -48,10 +48,20 @@ pub fn observe_chunk(s: &dyn Subject, key: &[u8], blocks: &[&Vec<u8>], panics: &
                 continue;
             }
             let mut x: Vec<u8> = (0..n).flat_map(|j| al::dense(bs, 90, j as u64)).collect();
+            let src = x.clone();
             match guarded(|| inst.blocks(dir, &mut x)) {
                 Ok(()) => obs.push(x),
                 Err(p) => {
                     panics.push((format!("{dir:?} batch of {n}"), p));
+                    obs.push(b"PANIC".to_vec());
+                }
+            }
+            // the same batch buffer-to-buffer (destination prefilled with garbage)
+            let mut out = vec![0xC9u8; n * bs];
+            match guarded(|| unsafe { inst.call(dir, crate::subjects::Shape::BlocksB2b, src.as_ptr(), out.as_mut_ptr(), n) }) {
+                Ok(_) => obs.push(out),
+                Err(p) => {
+                    panics.push((format!("{dir:?} b2b batch of {n}"), p));
                     obs.push(b"PANIC".to_vec());
                 }
             }
@@ -238,6 +248,7 @@ pub fn chunk_detail(name: &str, ctx: &Ctx) -> Value {
                     continue;
                 }
                 labels.push(json!({"kind":"obs","subject":sname,"key":hex(&key),"op":format!("{dir:?} batch"),"n":n}));
+                labels.push(json!({"kind":"obs","subject":sname,"key":hex(&key),"op":format!("{dir:?} batch b2b"),"n":n}));
             }
         }
         out.extend(labels.into_iter().zip(obs.iter()).map(|(l, o)| json!({"case": l, "obs": hex(o)})));
